@@ -5,10 +5,11 @@ from pyvc.api import harness
 from pyvc import spec as SP
 
 META = {
-    "explanation": "upper_conc_bounds (element totals, least ratio, charge skipped, inf without elements; no non-negative state with the same totals exceeds it), identify_equilibria, substance_participation, per_reaction_effect_on_substance, categorize_substances, subset, +, +=, ==, the per-substance conversions and the constructor's duplicate/key checks are proved for every coefficient/composition/concentration at fixed key layouts; split() and the key-structure of all queries are covered by the exhaustive bounded enumeration (all systems of <=4 reactions over <=5 substances in every order)",
+    "explanation": "upper_conc_bounds (element totals, least ratio, charge skipped, inf without elements; no non-negative state with the same totals exceeds it), identify_equilibria, substance_participation, per_reaction_effect_on_substance, categorize_substances, subset, +, +=, ==, the per-substance conversions and the constructor's duplicate/key checks are proved for every coefficient/composition/concentration at fixed key layouts; split() and the key-structure of all queries are covered by the exhaustive bounded enumeration (all systems of <=4 reactions over <=5 substances in every order); split, sequences of +/subset/split, concatenate, + and += with a list of reactions and decompose_yields (well-posed inputs) additionally on systems written out by hand (data)",
     "trusted_base": ["numpy object arrays store/return elements and apply operators elementwise (5.2)"],
-    "not_decided": ["split() for arbitrary graphs as a proof (bounded: exhaustive small systems + random larger ones)", "decompose_yields (lstsq)"],
-    "assumptions": ["key layouts fixed per harness (shape-bounded)"],
+    "not_decided": ["split() for arbitrary graphs as a proof (bounded: exhaustive small systems + random larger ones; data: written systems)", "decompose_yields for arbitrary input (lstsq; data: well-posed written cases only, rank-deficient input is not under contract)"],
+    "assumptions": ["key layouts fixed per harness (shape-bounded)",
+                    "every written coefficient is >= 1 (integers in the proofs, positive fractions in the data harness): a key written with coefficient 0 is outside the contract (split and substance_participation count it as present, categorize_substances as absent)"],
 }
 RS = "chempy.reactionsystem"
 NAMES = ["A", "B", "C", "D"]
@@ -84,22 +85,40 @@ def plain_substances():
     return OrderedDict((n, Substance(n)) for n in NAMES)
 
 
-@harness("C15", "identify_equilibria", functions=[RS + ":ReactionSystem.identify_equilibria"], kind="shape-bounded", samples=60)
-def _(v):
+def _reverse_parts(a, b):
+    """b is the backward reaction of a: what Equilibrium.as_reactions() writes for the other direction, all four parts change sides"""
+    return SP.conj([SP.conj([a[0].get(k, 0) == b[1].get(k, 0), a[1].get(k, 0) == b[0].get(k, 0), a[2].get(k, 0) == b[3].get(k, 0), a[3].get(k, 0) == b[2].get(k, 0)]) for k in NAMES])
+
+
+def _equilibria_obligations(v, layouts):
     from chempy.reactionsystem import ReactionSystem
-    rxns, ds = mk_rxns(v)
+    rxns, ds = mk_rxns(v, layouts)
     rsys = ReactionSystem(rxns, plain_substances(), checks=())
     eq = v.call(rsys.identify_equilibria)
-
-    def reverse(i, j):
-        return SP.conj([SP.conj([all_reac(ds[i], k) == all_prod(ds[j], k), all_prod(ds[i], k) == all_reac(ds[j], k)]) for k in NAMES])
     n = len(rxns)
     for i in range(n):
         for j in range(i + 1, n):
-            first = SP.conj([reverse(i, j)] + [SP.neg(reverse(i, m)) for m in range(i + 1, j)])
+            first = SP.conj([_reverse_parts(ds[i], ds[j])] + [SP.neg(_reverse_parts(ds[i], ds[m])) for m in range(i + 1, j)])
             v.prove("pair_%d_%d_listed_iff_first_reverse_partner" % (i, j), SP.iff((i, j) in eq, first))
     v.prove("only_ordered_pairs", all(a < b_ for a, b_ in eq))
     v.prove("sorted_by_first_index", [a for a, _ in eq] == sorted(a for a, _ in eq))
+
+
+@harness("C15", "identify_equilibria", functions=[RS + ":ReactionSystem.identify_equilibria"], kind="shape-bounded", samples=60)
+def _(v):
+    """'forward/backward pairs … contain exactly the reactions their definitions say': reaction j is the backward reaction of i when it is what
+    Equilibrium.as_reactions() writes for the other direction, i.e. all four parts change sides -- reac_j == prod_i, prod_j == reac_i,
+    inact_reac_j == inact_prod_i, inact_prod_j == inact_reac_i, part by part; a reaction is paired with the first later reaction that is its
+    reverse.  (At these layouts no key is active in one reaction and inactive in another, so the definition is not confronted with reactions
+    that agree only after active and inactive coefficients are added up.)"""
+    _equilibria_obligations(v, LAYOUTS)
+
+
+@harness("C15", "identify_equilibria_inactive_parts", functions=[RS + ":ReactionSystem.identify_equilibria"], kind="shape-bounded", samples=40)
+def _(v):
+    """the same definition where the inactive parts decide: A + (B) -> D + (B) against its written reverse D + (B) -> A + (B) (a pair iff all four
+    coefficients agree) and against D -> A without the spectator (never a pair: the inactive parts are not the swapped ones)"""
+    _equilibria_obligations(v, [(["A"], ["D"], ["B"], ["B"]), (["D"], ["A"], ["B"], ["B"]), (["D"], ["A"], [], [])])
 
 
 @harness("C15", "participation_and_effect", functions=[RS + ":ReactionSystem.substance_participation", RS + ":ReactionSystem.per_reaction_effect_on_substance", "chempy.chemistry:Reaction.keys"],
@@ -134,27 +153,40 @@ def _(v):
         v.prove(k + ".depleted_iff_only_net_consumed", SP.iff(k in cat["depleted"], SP.conj([in_r, SP.neg(in_p)])))
         v.prove(k + ".unaffected_iff_present_with_zero_net", SP.iff(k in cat["unaffected"], SP.conj([SP.neg(in_r), SP.neg(in_p), appears])))
         v.prove(k + ".nonparticipating_iff_absent", SP.iff(k in cat["nonparticipating"], SP.conj([SP.neg(in_r), SP.neg(in_p), SP.neg(appears)])))
-    v.prove("keys", set(cat) == {"accumulated", "depleted", "unaffected", "nonparticipating"})
+    # the four categories of the statement are there (a further category, e.g. for species both produced and consumed, is not excluded by it)
+    v.prove("keys", {"accumulated", "depleted", "unaffected", "nonparticipating"} <= set(cat))
 
 
 @harness("C15", "subset_add_eq", functions=[RS + ":ReactionSystem.subset", RS + ":ReactionSystem.__add__", RS + ":ReactionSystem.__iadd__", RS + ":ReactionSystem.__eq__"], kind="shape-bounded", samples=30)
 def _(v):
+    """'predicate subsets and sums of systems contain exactly the reactions their definitions say'.  Each reaction carries a distinct name as a tag:
+    'reaction i is in the result' means a reaction with that tag which is the original object or has the same four parts and constant (a copy is
+    as good as the object itself: the statement speaks of the reactions, not of Python identity)"""
     from chempy.reactionsystem import ReactionSystem
-    rxns, ds = mk_rxns(v)
+    tags = ["n0", "n1", "n2", "n3"]
+    rxns, ds = mk_rxns(v, names=tags)
     rsys = ReactionSystem(rxns, plain_substances(), checks=())
     thr = v.int("threshold", lo=1, hi=3)
     pred = lambda r: r.reac.get("A", 0) + r.prod.get("A", 0) >= thr
     yes, no = v.call(rsys.subset, pred)
+    has = lambda coll, i: any(x.name == tags[i] for x in coll)
+
+    def same_content(x, i):
+        if x is rxns[i]:
+            return True
+        parts = [(x.reac, 0), (x.prod, 1), (x.inact_reac, 2), (x.inact_prod, 3)]
+        return SP.conj([set(got) == set(ds[i][j]) for got, j in parts] + [v.eq(got.get(k, 0), ds[i][j].get(k, 0)) for got, j in parts for k in NAMES] + [x.param is None])
     # partition of the reactions by the predicate, order kept
     for i, (rxn, d) in enumerate(zip(rxns, ds)):
         p = d[0].get("A", 0) + d[1].get("A", 0) >= thr
-        v.prove("r%d_in_yes_iff_pred" % i, SP.iff(any(x is rxn for x in yes.rxns), p))
-        v.prove("r%d_in_exactly_one" % i, any(x is rxn for x in yes.rxns) != any(x is rxn for x in no.rxns))
-    v.prove("order_kept", [id(x) for x in yes.rxns] == [id(x) for x in rxns if any(x is y for y in yes.rxns)])
+        v.prove("r%d_in_yes_iff_pred" % i, SP.iff(has(yes.rxns, i), p))
+        v.prove("r%d_in_exactly_one" % i, has(yes.rxns, i) != has(no.rxns, i) and [x.name for x in yes.rxns + no.rxns].count(tags[i]) == 1)
+    v.prove("reactions_unchanged", SP.conj([same_content(x, tags.index(x.name)) for x in yes.rxns + no.rxns if x.name in tags]) and all(x.name in tags for x in yes.rxns + no.rxns))
+    v.prove("order_kept", [x.name for x in yes.rxns] == [t for t in tags if t in [x.name for x in yes.rxns]] and [x.name for x in no.rxns] == [t for t in tags if t in [x.name for x in no.rxns]])
     v.prove("substances_restricted", all(any(k in r.keys() for r in yes.rxns) for k in yes.substances) and
             all((k in yes.substances) for r in yes.rxns for k in r.keys()))
     s = v.call(yes.__add__, no)
-    v.prove("sum_has_all_reactions", [id(x) for x in s.rxns] == [id(x) for x in yes.rxns + no.rxns])
+    v.prove("sum_has_all_reactions", [x.name for x in s.rxns] == [x.name for x in yes.rxns + no.rxns] and SP.conj([same_content(x, tags.index(x.name)) for x in s.rxns]))
     v.prove("sum_merges_substances", set(s.substances) == set(yes.substances) | set(no.substances))
     v.prove("eq_reflexive", v.call(rsys.__eq__, rsys) is True)
     other = ReactionSystem(list(rxns), plain_substances(), checks=())
@@ -163,32 +195,31 @@ def _(v):
     v.prove("neq_different_reactions", not v.call(rsys.__eq__, shorter))
     acc = ReactionSystem(list(rxns[:2]), plain_substances(), checks=())
     v.call(acc.__iadd__, ReactionSystem(list(rxns[2:]), plain_substances(), checks=()))
-    v.prove("iadd_appends", [id(x) for x in acc.rxns] == [id(x) for x in rxns])
+    v.prove("iadd_appends", [x.name for x in acc.rxns] == tags and SP.conj([same_content(x, i) for i, x in enumerate(acc.rxns)]))
 
 
 @harness("C15", "conversions", functions=[RS + ":ReactionSystem.as_per_substance_array", RS + ":ReactionSystem.as_per_substance_dict", RS + ":ReactionSystem.as_substance_index"], kind="data")
 def _(v):
+    """'per-substance arrays and dictionaries convert into each other in substance order' on a four-species system; what is no per-substance
+    container (an unknown key when the caller asks for that check, a wrong length) is refused -- with whatever exception"""
     import numpy as np
     from chempy.reactionsystem import ReactionSystem
     rsys = ReactionSystem([], plain_substances(), checks=())
     d = {"C": 3.0, "A": 1.0, "D": 4.0, "B": 2.0}
-    arr = rsys.as_per_substance_array(d)
-    v.prove("array_in_substance_order", arr.tolist() == [1.0, 2.0, 3.0, 4.0])
-    v.prove("dict_round_trip", rsys.as_per_substance_dict(arr) == {"A": 1.0, "B": 2.0, "C": 3.0, "D": 4.0} and list(rsys.as_per_substance_dict(arr)) == NAMES)
-    v.prove("index", [rsys.as_substance_index(k) for k in NAMES] == [0, 1, 2, 3] and rsys.as_substance_index(2) == 2)
-    for bad, nm in ((dict(d, X=1.0), "unknown_key"),):
+
+    def attempt(f, *a, **kw):
         try:
-            rsys.as_per_substance_array(bad, raise_on_unk=True)
-            ok = False
-        except KeyError:
-            ok = True
-        v.prove(nm + "_raises", ok)
-    try:
-        rsys.as_per_substance_array([1.0, 2.0])
-        ok = False
-    except ValueError:
-        ok = True
-    v.prove("wrong_size_raises", ok)
+            return f(*a, **kw)
+        except Exception as ex:
+            return ex
+    arr = attempt(rsys.as_per_substance_array, d)
+    v.prove("array_in_substance_order", not isinstance(arr, Exception) and list(arr) == [1.0, 2.0, 3.0, 4.0], detail=repr(arr))
+    back = attempt(rsys.as_per_substance_dict, np.array([1.0, 2.0, 3.0, 4.0]))
+    v.prove("dict_round_trip", not isinstance(back, Exception) and back == {"A": 1.0, "B": 2.0, "C": 3.0, "D": 4.0} and list(back) == NAMES, detail=repr(back))
+    idx = attempt(lambda: [rsys.as_substance_index(k) for k in NAMES] + [rsys.as_substance_index(2)])
+    v.prove("index", idx == [0, 1, 2, 3, 2], detail=repr(idx))
+    v.prove("unknown_key_raises", isinstance(attempt(rsys.as_per_substance_array, dict(d, X=1.0), raise_on_unk=True), Exception))
+    v.prove("wrong_size_raises", isinstance(attempt(rsys.as_per_substance_array, [1.0, 2.0]), Exception))
 
 
 @harness("C15", "constructor_checks", functions=[RS + ":ReactionSystem.check_duplicate", RS + ":ReactionSystem.check_duplicate_names", RS + ":ReactionSystem.check_substance_keys"],
@@ -225,78 +256,202 @@ def _(v):
     from chempy.chemistry import Reaction, Substance
     from chempy.reactionsystem import ReactionSystem
     mk = lambda rxns, names: ReactionSystem(rxns, [Substance(n) for n in names], checks=())
-    c = mk([Reaction({"H2O2": 1}, {"H2O": 1, "O2": 0.5}, checks=())], ["H2O2", "H2O", "O2", "N2"]).categorize_substances()
+
+    def cats(rsys):
+        # checks=() also for the system categorize_substances builds internally (as the sentence above says); only the four named categories are compared
+        try:
+            c = rsys.categorize_substances(checks=())
+            return {k: set(c[k]) for k in ("accumulated", "depleted", "unaffected", "nonparticipating")}
+        except Exception as ex:
+            return repr(ex)
+    c = cats(mk([Reaction({"H2O2": 1}, {"H2O": 1, "O2": 0.5}, checks=())], ["H2O2", "H2O", "O2", "N2"]))
     v.prove("half_a_product", c == dict(accumulated={"H2O", "O2"}, depleted={"H2O2"}, unaffected=set(), nonparticipating={"N2"}), detail=repr(c))
-    c = mk([Reaction({"A": 1, "C": Fr(3, 2)}, {"B": 1, "C": 1}, checks=())], ["A", "B", "C"]).categorize_substances()
+    c = cats(mk([Reaction({"A": 1, "C": Fr(3, 2)}, {"B": 1, "C": 1}, checks=())], ["A", "B", "C"]))
     v.prove("net_consumption_of_half_a_catalyst", c == dict(accumulated={"B"}, depleted={"A", "C"}, unaffected=set(), nonparticipating=set()), detail=repr(c))
-    c = mk([Reaction({"A": Fr(1, 3)}, {"B": Fr(1, 4)}, checks=()), Reaction({"B": 0.25, "D": 1}, {"A": Fr(1, 3), "D": 1.0}, checks=())], ["A", "B", "D"]).categorize_substances()
+    c = cats(mk([Reaction({"A": Fr(1, 3)}, {"B": Fr(1, 4)}, checks=()), Reaction({"B": 0.25, "D": 1}, {"A": Fr(1, 3), "D": 1.0}, checks=())], ["A", "B", "D"]))
     v.prove("fractions_below_one", c == dict(accumulated=set(), depleted=set(), unaffected={"D"}, nonparticipating=set()), detail=repr(c))
 
 
 @harness("C15", "definitions_on_written_systems", functions=["chempy.reactionsystem:ReactionSystem.per_substance_varied", "chempy.reactionsystem:ReactionSystem.concatenate", "chempy.reactionsystem:ReactionSystem.__eq__",
+                                                           "chempy.reactionsystem:ReactionSystem.__add__", "chempy.reactionsystem:ReactionSystem.__iadd__",
+                                                           "chempy.reactionsystem:ReactionSystem.categorize_substances", "chempy.reactionsystem:ReactionSystem.split",
                                                            "chempy.reactionsystem:ReactionSystem.identify_equilibria", "chempy.reactionsystem:ReactionSystem.as_substance_index"], kind="data")
 def _(v):
     """queries the symbolic harnesses do not reach, on small systems written out by hand: grids of varied concentrations (axes in substance order,
-    whatever the order of the `varied` mapping), sums of systems with duplicates set aside, equality of systems, forward/backward pairs that differ
-    only in their inactive parts"""
-    import numpy as np
+    whatever the order of the `varied` mapping), sums of systems with duplicates set aside ('identical stoichiometry' = the four parts, or the
+    parts named by cmp_attrs; across two and three systems), + and += with declared-but-unused species and with a list of reactions, equality
+    of systems (reactions with their constants, the substances with their content and order; both directions and !=), forward/backward pairs
+    that differ only in their inactive parts, the system without reactions"""
     from chempy.chemistry import Reaction, Substance
     from chempy.reactionsystem import ReactionSystem
     rs = ReactionSystem([Reaction({"A": 1}, {"B": 1}, checks=())], [Substance(k) for k in ("C", "A", "B")], checks=())
     base = {"A": 2.0, "B": 3.0, "C": 5.0}
-    arr, keys = rs.per_substance_varied(base, {"B": [30.0, 31.0], "C": [50.0, 51.0, 52.0]})      # mapping order B, C; substance order C, A, B
-    ok = keys == ("C", "B") and arr.shape == (3, 2, 3)
-    if ok:
-        for i, c in enumerate([50.0, 51.0, 52.0]):
-            for j, b in enumerate([30.0, 31.0]):
-                ok = ok and list(arr[i, j, :]) == [c, 2.0, b]
-    v.prove("grid_axes_follow_substance_order_each_point_is_the_base_with_its_levels", ok, detail="%r %r" % (keys, getattr(arr, "shape", None)))
-    arr1, keys1 = rs.per_substance_varied(base)
-    v.prove("nothing_varied", keys1 == () and list(arr1) == [5.0, 2.0, 3.0])
-    r1, r2, r3 = Reaction({"A": 1}, {"B": 1}, 1.0, checks=()), Reaction({"B": 1}, {"C": 1}, 2.0, checks=()), Reaction({"A": 1}, {"B": 1}, 9.0, checks=())
-    s1 = ReactionSystem([r1], [Substance(k) for k in "AB"], checks=())
-    s2 = ReactionSystem([r2, r3], [Substance(k) for k in "ABC"], checks=())
-    tot, dup = ReactionSystem.concatenate([s1, s2])
-    v.prove("sum_has_each_stoichiometry_once_duplicates_set_aside", [str(r) for r in tot.rxns] == ["A -> B; 1", "B -> C; 2"] and [str(r) for r in dup.rxns] == ["A -> B; 9"]
-            and set(tot.substances) == {"A", "B", "C"}, detail="%r %r" % ([str(r) for r in tot.rxns], [str(r) for r in dup.rxns]))
+    try:
+        arr, keys = rs.per_substance_varied(base, {"B": [30.0, 31.0], "C": [50.0, 51.0, 52.0]})      # mapping order B, C; substance order C, A, B
+        ok = tuple(keys) == ("C", "B") and arr.shape == (3, 2, 3)      # the keys in substance order; tuple or list is not part of the statement
+        if ok:
+            for i, c in enumerate([50.0, 51.0, 52.0]):
+                for j, b in enumerate([30.0, 31.0]):
+                    ok = ok and list(arr[i, j, :]) == [c, 2.0, b]
+        det = "%r %r" % (keys, getattr(arr, "shape", None))
+    except Exception as ex:
+        ok, det = False, repr(ex)
+    v.prove("grid_axes_follow_substance_order_each_point_is_the_base_with_its_levels", ok, detail=det)
+    try:
+        arr1, keys1 = rs.per_substance_varied(base)
+        ok, det = len(keys1) == 0 and list(arr1) == [5.0, 2.0, 3.0], "%r %r" % (arr1, keys1)
+    except Exception as ex:
+        ok, det = False, repr(ex)
+    v.prove("nothing_varied", ok, detail=det)
+    # reactions are compared by their four parts and constant (how a reaction is printed belongs to C12/C20)
+    sig = lambda r: (dict(r.reac), dict(r.prod), dict(r.inact_reac), dict(r.inact_prod), r.param)
+    sigs = lambda rsys: [sig(r) for r in rsys.rxns]
+    R = lambda reac, prod, k, ir=None, ip=None: Reaction(reac, prod, k, inact_reac=ir, inact_prod=ip, checks=())
+    S = lambda reac, prod, k, ir=None, ip=None: (reac, prod, ir or {}, ip or {}, k)      # the same written as a signature
     mk = lambda rxns, names: ReactionSystem(rxns, [Substance(k) for k in names], checks=())
-    a = mk([Reaction({"A": 1}, {"B": 1}, 1.0, checks=()), Reaction({"B": 1}, {"C": 2}, 2.0, checks=())], "ABC")
-    same = mk([Reaction({"A": 1}, {"B": 1}, 1.0, checks=()), Reaction({"B": 1}, {"C": 2}, 2.0, checks=())], "ABC")
-    v.prove("equal_content_distinct_objects", a == same)
-    differs = [mk([Reaction({"A": 1}, {"B": 1}, 1.0, checks=()), Reaction({"B": 1}, {"C": 3}, 2.0, checks=())], "ABC"),      # a coefficient
-               mk([Reaction({"B": 1}, {"C": 2}, 2.0, checks=()), Reaction({"A": 1}, {"B": 1}, 1.0, checks=())], "ABC"),      # reaction order
-               mk([Reaction({"A": 1}, {"B": 1}, 1.0, checks=())], "ABC"),                                                     # fewer reactions
-               mk([Reaction({"A": 1}, {"B": 1}, 1.0, checks=()), Reaction({"B": 1}, {"C": 2}, 2.0, checks=())], "ABCD")]      # another substance
-    v.prove("any_difference_makes_them_unequal", not any(a == d for d in differs))
+
+    def concat(systems, **kw):
+        try:
+            tot, dup = ReactionSystem.concatenate(systems, **kw)
+            return sigs(tot), sigs(dup), list(tot.substances), list(dup.substances)
+        except Exception as ex:
+            return repr(ex), None, [], []
+    # two systems: the later copy of A -> B (other constant) is set aside, B -> C joins the sum after the first system's reactions
+    tot, dup, tsub, dsub = concat([mk([R({"A": 1}, {"B": 1}, 1.0)], "AB"), mk([R({"B": 1}, {"C": 1}, 2.0), R({"A": 1}, {"B": 1}, 9.0)], "ABC")])
+    v.prove("sum_has_each_stoichiometry_once_duplicates_set_aside", tot == [S({"A": 1}, {"B": 1}, 1.0), S({"B": 1}, {"C": 1}, 2.0)] and dup == [S({"A": 1}, {"B": 1}, 9.0)]
+            and set(tsub) == {"A", "B", "C"}, detail="%r %r" % (tot, dup))
+    v.prove("sum_keeps_the_first_systems_substance_order_and_the_set_aside_system_knows_its_species", tsub[:2] == ["A", "B"] and {"A", "B"} <= set(dsub), detail="%r %r" % (tsub, dsub))
+    # three systems: the third repeats a stoichiometry the SECOND one contributed (not one of the first system) and brings one new reaction
+    tot, dup, tsub, dsub = concat([mk([R({"A": 1}, {"B": 1}, 1.0)], "AB"), mk([R({"B": 1}, {"C": 1}, 2.0)], "BC"), mk([R({"B": 1}, {"C": 1}, 3.0), R({"C": 1}, {"D": 1}, 4.0)], "BCD")])
+    v.prove("sum_of_three.duplicate_of_a_reaction_from_the_second_system_set_aside", tot == [S({"A": 1}, {"B": 1}, 1.0), S({"B": 1}, {"C": 1}, 2.0), S({"C": 1}, {"D": 1}, 4.0)]
+            and dup == [S({"B": 1}, {"C": 1}, 3.0)] and set(tsub) == {"A", "B", "C", "D"} and {"B", "C"} <= set(dsub), detail="%r %r %r %r" % (tot, dup, tsub, dsub))
+    # same active parts, but a spectator on the reactant side: another stoichiometry, so it stays in the sum ...
+    pair = lambda: [mk([R({"A": 1}, {"B": 1}, 1.0)], "AB"), mk([R({"A": 1}, {"B": 1}, 5.0, {"S": 1})], "ABS")]
+    tot, dup, tsub, dsub = concat(pair())
+    v.prove("sum.differs_only_in_an_inactive_part_is_no_duplicate", tot == [S({"A": 1}, {"B": 1}, 1.0), S({"A": 1}, {"B": 1}, 5.0, {"S": 1})] and dup == [] and set(tsub) == {"A", "B", "S"},
+            detail="%r %r %r" % (tot, dup, tsub))
+    # ... unless the caller asks to compare the active parts only
+    tot, dup, tsub, dsub = concat(pair(), cmp_attrs=("reac", "prod"))
+    v.prove("sum.cmp_attrs_restricts_what_identical_means", tot == [S({"A": 1}, {"B": 1}, 1.0)] and dup == [S({"A": 1}, {"B": 1}, 5.0, {"S": 1})] and {"A", "B"} <= set(tsub) and {"A", "B", "S"} <= set(dsub),
+            detail="%r %r %r %r" % (tot, dup, tsub, dsub))
+    # + and += keep every declared species of both operands, also one that no reaction uses, the left operand's first, each once
+    left = lambda: mk([R({"A": 1}, {"B": 1}, 1.0)], ["A", "B", "N2"])
+    right = lambda: mk([R({"B": 1}, {"C": 1}, 2.0)], ["B", "C", "Ar"])
+    try:
+        l0 = left()
+        s_add = l0 + right()
+        s_iadd = left()
+        s_iadd += right()
+        got = [(sigs(x), list(x.substances)) for x in (s_add, s_iadd)] + [(sigs(l0), list(l0.substances))]
+    except Exception as ex:
+        got = repr(ex)
+    want = ([S({"A": 1}, {"B": 1}, 1.0), S({"B": 1}, {"C": 1}, 2.0)], ["A", "B", "N2", "C", "Ar"])
+    v.prove("add_and_iadd_keep_unused_species_and_the_left_order", got == [want, want, ([S({"A": 1}, {"B": 1}, 1.0)], ["A", "B", "N2"])], detail=repr(got))
+    # + and += with a list of reactions: the reactions are appended (+ leaves the left operand alone); anything that is not a reaction is refused
+    extra = R({"C": 1}, {"A": 1}, 3.0)
+    try:
+        l0, l1 = left(), left()
+        s_add = l0 + [extra]
+        l1 += [extra]
+        got = [sigs(s_add), sigs(l1), sigs(l0), list(s_add.substances)[:3], list(l1.substances)[:3]]
+    except Exception as ex:
+        got = repr(ex)
+    both = [S({"A": 1}, {"B": 1}, 1.0), S({"C": 1}, {"A": 1}, 3.0)]
+    v.prove("add_and_iadd_take_a_list_of_reactions", got == [both, both, [S({"A": 1}, {"B": 1}, 1.0)], ["A", "B", "N2"], ["A", "B", "N2"]], detail=repr(got))
+    took = []
+    for bad in ([1], ["A -> B"], [extra, None]):
+        for op in ("add", "iadd"):
+            l0 = left()
+            try:
+                if op == "add":
+                    res = l0 + bad
+                else:
+                    l0 += bad
+                    res = l0
+                took.append((op, repr(bad)[:20], len(res.rxns)))
+            except Exception:
+                if sigs(l0) != [S({"A": 1}, {"B": 1}, 1.0)]:      # a refused operand must not leave half of itself behind
+                    took.append((op, repr(bad)[:20], "refused, but the system now has", sigs(l0)))
+    v.prove("add_and_iadd_refuse_what_is_not_a_reaction", not took, detail=repr(took[:2]))
+    a = mk([R({"A": 1}, {"B": 1}, 1.0), R({"B": 1}, {"C": 2}, 2.0)], "ABC")
+    same = mk([R({"A": 1}, {"B": 1}, 1.0), R({"B": 1}, {"C": 2}, 2.0)], "ABC")
+
+    def rel(p, q):
+        """'==' / '!=' when ==, its mirror image and != all say so, else what they said"""
+        try:
+            r = (bool(p == q), bool(q == p), bool(p != q))
+        except Exception as ex:
+            return repr(ex)
+        return {(True, True, False): "==", (False, False, True): "!="}.get(r, r)
+    v.prove("equal_content_distinct_objects", rel(a, same) == "==", detail=repr(rel(a, same)))
+    comp = lambda n: [Substance("A", composition={1: n}), Substance("B"), Substance("C")]
+    differs = [("a coefficient", mk([R({"A": 1}, {"B": 1}, 1.0), R({"B": 1}, {"C": 3}, 2.0)], "ABC")),
+               ("reaction order", mk([R({"B": 1}, {"C": 2}, 2.0), R({"A": 1}, {"B": 1}, 1.0)], "ABC")),
+               ("fewer reactions", mk([R({"A": 1}, {"B": 1}, 1.0)], "ABC")),
+               ("another substance", mk([R({"A": 1}, {"B": 1}, 1.0), R({"B": 1}, {"C": 2}, 2.0)], "ABCD")),
+               ("a rate constant", mk([R({"A": 1}, {"B": 1}, 1.0), R({"B": 1}, {"C": 2}, 2.5)], "ABC")),
+               ("an inactive part", mk([R({"A": 1}, {"B": 1}, 1.0, {"C": 1}), R({"B": 1}, {"C": 2}, 2.0)], "ABC")),
+               # per-substance arrays are read in substance order, so two systems that order their species differently are not interchangeable
+               ("substance order", mk([R({"A": 1}, {"B": 1}, 1.0), R({"B": 1}, {"C": 2}, 2.0)], "BAC"))]
+    wrong = [(what, rel(a, d)) for what, d in differs if rel(a, d) != "!="]
+    # same keys, but what a key stands for differs (composition of A)
+    x, y = ReactionSystem([R({"A": 1}, {"B": 1}, 1.0)], comp(1), checks=()), ReactionSystem([R({"A": 1}, {"B": 1}, 1.0)], comp(2), checks=())
+    if rel(x, y) != "!=" or rel(x, ReactionSystem([R({"A": 1}, {"B": 1}, 1.0)], comp(1), checks=())) != "==":
+        wrong.append(("the composition of a substance", rel(x, y)))
+    v.prove("any_difference_makes_them_unequal", not wrong, detail="not '!=' although they differ in: %r" % wrong)
     fw = Reaction({"A": 1}, {"B": 1}, inact_reac={"S": 1}, checks=())
     bw_swapped = Reaction({"B": 1}, {"A": 1}, inact_prod={"S": 1}, checks=())
     bw_not = Reaction({"B": 1}, {"A": 1}, inact_reac={"S": 1}, checks=())
-    v.prove("reverse_pair_needs_the_inactive_parts_swapped_too", mk([fw, bw_swapped], "ABS").identify_equilibria() == [(0, 1)] and mk([fw, bw_not], "ABS").identify_equilibria() == [])
-    idx = [rs.as_substance_index(k) for k in ("C", "A", "B")]
-    v.prove("index_of_a_key_is_its_position", idx == [0, 1, 2])
+    try:
+        got = [[tuple(p) for p in mk(pair_, "ABS").identify_equilibria()] for pair_ in ([fw, bw_swapped], [fw, bw_not])]
+    except Exception as ex:
+        got = repr(ex)
+    v.prove("reverse_pair_needs_the_inactive_parts_swapped_too", got == [[(0, 1)], []], detail=repr(got))
+    # no reactions at all: every declared species is 'absent from all reactions', and there is no component to split off
+    try:
+        c = mk([], "AB").categorize_substances(checks=())
+        got = ({k: set(c[k]) for k in ("accumulated", "depleted", "unaffected", "nonparticipating")}, len(mk([], "AB").split()))
+    except Exception as ex:
+        got = repr(ex)
+    v.prove("system_without_reactions", got == (dict(accumulated=set(), depleted=set(), unaffected=set(), nonparticipating={"A", "B"}), 0), detail=repr(got))
+    try:
+        idx = [rs.as_substance_index(k) for k in ("C", "A", "B")]
+    except Exception as ex:
+        idx = repr(ex)
+    v.prove("index_of_a_key_is_its_position", idx == [0, 1, 2], detail=repr(idx))
 
 
-@harness("C15", "per_substance_array_size", functions=["chempy.reactionsystem:ReactionSystem.as_per_substance_array", "chempy.reactionsystem:ReactionSystem.upper_conc_bounds"], kind="data")
+@harness("C15", "per_substance_array_size", functions=["chempy.reactionsystem:ReactionSystem.as_per_substance_array", "chempy.reactionsystem:ReactionSystem.as_per_substance_dict",
+                                                     "chempy.reactionsystem:ReactionSystem.upper_conc_bounds"], kind="data")
 def _(v):
     """'per-substance arrays … convert into each other in substance order': a container whose length is not the number of substances is no
-    per-substance array and is refused (ValueError) whatever its type -- float arrays, integer arrays, lists, tuples -- so that the elemental
-    bounds are never computed from a truncated state; a right-sized one comes back with the same numbers"""
+    per-substance array and is refused (with whatever exception; what must not happen is an answer) whatever its type -- float arrays, integer
+    arrays, lists, tuples -- so that the elemental bounds are never computed from a truncated state; a right-sized one comes back with the same
+    numbers, also as a (points x substances) block, and gives the same elemental bounds as the dictionary"""
     import numpy as np
     from chempy.reactionsystem import ReactionSystem
     rs = ReactionSystem.from_string("2 H2O2 -> 2 H2O + O2\nH2O -> H+ + OH-")
     n = rs.ns
+    order = list(rs.substances)
     accepted = []
     for cont in (np.arange(n - 1, dtype=float), np.arange(n + 1, dtype=float), np.arange(n - 1), list(range(n + 2)), tuple(float(i) for i in range(n - 2)), np.zeros(0)):
         for fn in (rs.as_per_substance_array, rs.upper_conc_bounds):
             try:
                 accepted.append((type(cont).__name__, len(cont), fn.__name__, repr(fn(cont))[:60]))
-            except ValueError:
+            except Exception:
                 pass
-            except Exception as ex:
-                accepted.append((type(cont).__name__, len(cont), fn.__name__, repr(ex)[:60]))
     v.prove("wrong_size_refused", not accepted, detail=repr(accepted[:3]))
-    ok = all(list(rs.as_per_substance_array(c)) == [float(i) for i in range(n)] for c in (np.arange(n, dtype=float), np.arange(n), list(range(n)), tuple(range(n))))
-    v.prove("right_size_same_numbers", ok)
+    vals = [7.5, 0.25, 3.0, 11.0, 2.0][:n]      # not monotone: a reordering cannot pass for the identity
+    ivals = [7, 0, 3, 11, 2][:n]
+    bad = []
+    for c, want in ((np.array(vals), vals), (np.array(ivals), ivals), (list(vals), vals), (tuple(ivals), ivals)):
+        try:
+            got = list(rs.as_per_substance_array(c))
+        except Exception as ex:
+            got = repr(ex)
+        if got != [float(x) for x in want]:
+            bad.append((type(c).__name__, got))
+    v.prove("right_size_same_numbers", n == 5 and not bad, detail=repr(bad[:2]))
     # the other direction: a sequence that is too short or too long is no per-substance sequence either (zip would silently drop the rest)
     took = []
     for seq in ([1.0], list(range(n - 1)), list(range(n + 1)), np.arange(n + 3, dtype=float), ()):
@@ -305,6 +460,149 @@ def _(v):
         except Exception:
             pass
     v.prove("dict_from_a_wrong_sized_sequence_refused", not took, detail=repr(took[:2]))
-    vals = [7.5, 0.25, 3.0, 11.0, 2.0][:n]
-    v.prove("dict_from_a_right_sized_sequence", rs.as_per_substance_dict(vals) == dict(zip(rs.substances, vals)) and
-            list(rs.as_per_substance_array(rs.as_per_substance_dict(vals))) == vals)
+    try:
+        dd = rs.as_per_substance_dict(vals)
+        ok, det = dd == dict(zip(order, vals)) and list(rs.as_per_substance_array(dd)) == vals, repr(dd)
+    except Exception as ex:
+        ok, det = False, repr(ex)
+    v.prove("dict_from_a_right_sized_sequence", ok, detail=det)
+    # several states at once: a (points x substances) block, the substance is the LAST axis (what per_substance_varied returns)
+    block = np.array([vals, [10 * x + 1 for x in vals], [0.5 * x for x in reversed(vals)]])      # 3 points, n substances, 3 != n
+    try:
+        got = rs.as_per_substance_array(block)
+        ok, det = got.shape == (3, n) and got.tolist() == block.tolist(), repr(got)[:120]
+    except Exception as ex:
+        ok, det = False, repr(ex)
+    v.prove("block_of_states_comes_back_unchanged", ok, detail=det)
+    # ... as a dictionary: every key gets ITS column (all points of that substance) -- or the block is refused; never the rows handed out to the first keys
+    try:
+        dd = rs.as_per_substance_dict(block)
+        ok, det = list(dd) == order and all(list(np.ravel(dd[k])) == block[:, i].tolist() for i, k in enumerate(order)), repr(dd)[:160]
+    except Exception as ex:
+        ok, det = True, "refused: %r" % ex
+    v.prove("dict_from_a_block_of_states_has_each_substances_column_or_is_refused", ok, detail=det)
+    # a dictionary of sequences (3 points per substance): the substance axis of the array is the last one -- or the dictionary is refused
+    dseq = {k: block[:, i].tolist() for i, k in enumerate(order)}
+    try:
+        got = np.asarray(rs.as_per_substance_array(dseq))
+        ok, det = got.shape == (3, n) and got.tolist() == block.tolist(), repr(got)[:160]
+    except Exception as ex:
+        ok, det = True, "refused: %r" % ex
+    v.prove("array_from_a_dict_of_sequences_has_the_substance_last_or_is_refused", ok, detail=det)
+    # the elemental bounds from a right-sized list / array are those from the dictionary, and both are the least (element total)/(atoms per
+    # molecule), worked out here from the formulas (H = 1, O = 8; charge not an element)
+    atoms = {"H2O2": {1: 2, 8: 2}, "H2O": {1: 2, 8: 1}, "O2": {8: 2}, "H+": {1: 1}, "OH-": {1: 1, 8: 1}}
+    conc = dict(zip(order, vals))
+    total = {e: sum(atoms[k].get(e, 0) * conc[k] for k in order) for e in (1, 8)} if set(order) == set(atoms) else {}
+    want = [min(total[e] / m for e, m in atoms[k].items()) for k in order] if total else None
+    try:
+        got = [[float(x) for x in rs.upper_conc_bounds(c)] for c in (conc, list(vals), np.array(vals), tuple(vals))]
+    except Exception as ex:
+        got = repr(ex)
+    v.prove("bounds_from_a_sequence_are_those_from_the_dict", want is not None and not isinstance(got, str) and all(len(g) == n and all(abs(a - b) <= 1e-12 * b for a, b in zip(g, want)) for g in got),
+            detail="%r, expected %r" % (got, want))
+
+
+@harness("C15", "split_and_sequences", functions=["chempy.reactionsystem:ReactionSystem.split", "chempy.reactionsystem:ReactionSystem.subset", "chempy.reactionsystem:ReactionSystem.__add__"], kind="data")
+def _(v):
+    """'splitting a system returns sub-systems whose reaction lists partition the original reactions, whose substance sets are pairwise disjoint
+    and each connected through shared species, one per connected component' on two systems whose components are read off by hand, and the
+    quantifier's 'sequences of add/subset/split': the components of a sum of systems without common species are those of the operands, and
+    taking a system apart with a predicate and adding the halves again (in either order) does not change its components.  Reactions are told
+    apart by their constants (1..8, each used once)."""
+    from chempy.chemistry import Reaction, Substance
+    from chempy.reactionsystem import ReactionSystem
+    R = lambda reac, prod, k, ir=None: Reaction(reac, prod, k, inact_reac=ir, checks=())
+    mk = lambda rxns, names: ReactionSystem(rxns, [Substance(k) for k in names], checks=())
+    # a: 1: A -> B and 3: 2 B -> E hang together through B; 2: C -> D, 4: F -> G and 5: D + (G) -> C hang together through D/C and the
+    #    spectator G (an inactive species is a shared species as well); H is declared but in no reaction.  Declared in the order H G F E D C B A.
+    mk_a = lambda: mk([R({"A": 1}, {"B": 1}, 1.0), R({"C": 1}, {"D": 1}, 2.0), R({"B": 2}, {"E": 1}, 3.0), R({"F": 1}, {"G": 1}, 4.0), R({"D": 1}, {"C": 1}, 5.0, {"G": 1})], "HGFEDCBA")
+    comp_a = [((1.0, 3.0), ("E", "B", "A")), ((2.0, 4.0, 5.0), ("G", "F", "D", "C"))]
+    # b: 6: P -> Q and 8: Q -> R + P; 7: X -> Y on its own; Z in no reaction
+    mk_b = lambda: mk([R({"P": 1}, {"Q": 1}, 6.0), R({"X": 1}, {"Y": 1}, 7.0), R({"Q": 1}, {"R": 1, "P": 1}, 8.0)], "PQRXYZ")
+    comp_b = [((6.0, 8.0), ("P", "Q", "R")), ((7.0,), ("X", "Y"))]
+
+    def parts(rsys, ordered=True):
+        """the sub-systems as (constants of the reactions, substance keys), sorted; without `ordered` the keys as a sorted tuple"""
+        try:
+            return sorted((tuple(sorted(r.param for r in p.rxns)), tuple(p.substances) if ordered else tuple(sorted(p.substances))) for p in rsys.split())
+        except Exception as ex:
+            return repr(ex)
+    unordered = lambda comps: sorted((ks, tuple(sorted(subst))) for ks, subst in comps)
+    got = parts(mk_a())
+    v.prove("components_of_a_written_system.a", got == sorted(comp_a), detail=repr(got))       # substances of a part in the parent's order
+    got = parts(mk_b())
+    v.prove("components_of_a_written_system.b", got == sorted(comp_b), detail=repr(got))
+    # c: three pairs A-B, C-D, E-F that only the last two reactions tie together (E-C, then F-A): the chain B-A-F-E-C-D is ONE component, whatever
+    #    order the links are discovered in
+    got = parts(mk([R({"A": 1}, {"B": 1}, 1.0), R({"C": 1}, {"D": 1}, 2.0), R({"E": 1}, {"F": 1}, 3.0), R({"E": 1}, {"C": 1}, 4.0), R({"F": 1}, {"A": 1}, 5.0)], "ABCDEF"))
+    v.prove("components_of_a_written_system.c_links_found_late", got == [((1.0, 2.0, 3.0, 4.0, 5.0), ("A", "B", "C", "D", "E", "F"))], detail=repr(got))
+    # d: the same three pairs tied together the other way round (E-D, then B-D): again one component
+    got = parts(mk([R({"A": 1}, {"B": 1}, 1.0), R({"C": 1}, {"D": 1}, 2.0), R({"E": 1}, {"F": 1}, 3.0), R({"E": 1}, {"D": 1}, 4.0), R({"B": 1}, {"D": 1}, 5.0)], "ABCDEF"))
+    v.prove("components_of_a_written_system.d_links_found_late", got == [((1.0, 2.0, 3.0, 4.0, 5.0), ("A", "B", "C", "D", "E", "F"))], detail=repr(got))
+    try:
+        a = mk_a()
+        ps = a.split()
+        same_objects_or_equal = all(any(r is o or r == o for o in a.rxns) for p in ps for r in p.rxns)
+        untouched = [r.param for r in a.rxns] == [1.0, 2.0, 3.0, 4.0, 5.0] and list(a.substances) == list("HGFEDCBA")
+        ok, det = same_objects_or_equal and untouched and sum(len(p.rxns) for p in ps) == 5, ""
+    except Exception as ex:
+        ok, det = False, repr(ex)
+    v.prove("split_hands_out_the_systems_own_reactions_and_leaves_it_alone", ok, detail=det)
+    try:
+        got = parts(mk_a() + mk_b(), ordered=False), parts(mk_b() + mk_a(), ordered=False)
+    except Exception as ex:
+        got = repr(ex)
+    v.prove("components_of_a_sum_of_disjoint_systems_are_those_of_the_operands", got == (unordered(comp_a + comp_b),) * 2, detail=repr(got))
+    bad = []
+    for what, pred in (("constants 2 and 3", lambda r: r.param in (2.0, 3.0)), ("uses G", lambda r: "G" in r.keys()), ("all", lambda r: True), ("first order", lambda r: sum(r.reac.values()) == 1)):
+        try:
+            yes, no = mk_a().subset(pred)
+            got = parts(yes + no, ordered=False), parts(no + yes, ordered=False)
+        except Exception as ex:
+            got = repr(ex)
+        if got != (unordered(comp_a),) * 2:
+            bad.append((what, got))
+    v.prove("subset_then_add_then_split_gives_the_components_back", not bad, detail=repr(bad[:1]))
+    # a half on its own: taking 5: D + (G) -> C away separates 2: C -> D from 4: F -> G
+    try:
+        yes, no = mk_a().subset(lambda r: r.param == 5.0)
+        got = parts(yes, ordered=False), parts(no, ordered=False)
+    except Exception as ex:
+        got = repr(ex)
+    v.prove("components_of_the_halves", got == ([((5.0,), ("C", "D", "G"))], [((1.0, 3.0), ("A", "B", "E")), ((2.0,), ("C", "D")), ((4.0,), ("F", "G"))]), detail=repr(got))
+
+
+@harness("C15", "decompose_yields_well_posed", functions=["chempy.util.stoich:decompose_yields"], kind="data")
+def _(v):
+    """decompose_yields (anchor of C15; only well-posed input is under contract, see META): the returned k reproduces every yield,
+    sum_j k_j * net_j[key] == y[key], for a square and for an over-determined consistent case (k worked out by hand); yields that no k
+    reproduces (independent reactions, more keys than reactions, off by 0.5) and a yield key that is in no reaction are refused"""
+    from chempy.chemistry import Reaction
+    from chempy.util.stoich import decompose_yields
+    # X -> 2 P + Q and X -> P + 3 Q with k = (0.5, 2): P = 1 + 2 = 3, Q = 0.5 + 6 = 6.5, X = -2.5 (not symmetric: the transposed matrix gives other numbers)
+    r1, r2 = Reaction({"X": 1}, {"P": 2, "Q": 1}), Reaction({"X": 1}, {"P": 1, "Q": 3})
+    # the docstring's system: H2O -> H2 + O and H2O + (H2O) -> H2 + H2O2 with k = (2, 1): H2 = 3, O = 2, H2O2 = 1, H2O = -2 - 2 = -4
+    h2a, h2b = Reaction({"H2O": 1}, {"H2": 1, "O": 1}), Reaction({"H2O": 1}, {"H2": 1, "H2O2": 1}, inact_reac={"H2O": 1})
+    net = {id(r1): {"X": -1, "P": 2, "Q": 1}, id(r2): {"X": -1, "P": 1, "Q": 3}, id(h2a): {"H2O": -1, "H2": 1, "O": 1}, id(h2b): {"H2O": -2, "H2": 1, "H2O2": 1}}      # written by hand, inactive included
+    cases = [("square", OrderedDict([("P", 3.0), ("Q", 6.5)]), [r1, r2], [0.5, 2.0]),
+             ("overdetermined", OrderedDict([("P", 3.0), ("Q", 6.5), ("X", -2.5)]), [r1, r2], [0.5, 2.0]),
+             ("docstring", OrderedDict([("H2", 3), ("O", 2), ("H2O2", 1)]), [h2a, h2b], [2.0, 1.0]),
+             ("docstring_with_the_water_consumed", OrderedDict([("H2O", -4), ("H2O2", 1), ("O", 2), ("H2", 3)]), [h2a, h2b], [2.0, 1.0])]
+    for name, y, rxns, k_hand in cases:
+        try:
+            k = [float(x) for x in decompose_yields(y, rxns)]
+            resid = max(abs(sum(kj * net[id(r)].get(key, 0) for kj, r in zip(k, rxns)) - val) for key, val in y.items())
+            ok, det = len(k) == len(rxns) and resid <= 1e-6 and all(abs(a - b) <= 1e-6 for a, b in zip(k, k_hand)), "k = %r, largest residual %r" % (k, resid)
+        except Exception as ex:
+            ok, det = False, repr(ex)
+        v.prove("reproduces_the_yields." + name, ok, detail=det)
+    took = []
+    for name, y, rxns in (("X off by 0.5", OrderedDict([("P", 3.0), ("Q", 6.5), ("X", -2.0)]), [r1, r2]),
+                          ("H2O2 off by 0.5", OrderedDict([("H2", 3), ("O", 2), ("H2O2", 1.5)]), [h2a, h2b]),
+                          ("a key in no reaction", OrderedDict([("H2", 3), ("OH", 1)]), [h2a, h2b])):
+        try:
+            took.append((name, [float(x) for x in decompose_yields(y, rxns)]))
+        except Exception:
+            pass
+    v.prove("yields_that_cannot_be_reproduced_are_refused", not took, detail=repr(took))
